@@ -49,6 +49,9 @@ type SchedScenario struct {
 	Lenient bool `json:"allow_undefined,omitempty"`
 }
 
+// opNames backs an Operator option built from a sub-slice with spare capacity.
+func opNameSlice() []string { return []string{"OpA", "OpB", "Nope"} }
+
 func g0raw(r *RNG) string {
 	return r.Pick([]string{"Undef1 == nil or P", "[A, Undef2]", "Undef1 == Undef2", "P ? A : Undef3"})
 }
@@ -189,6 +192,13 @@ func (c08Engine) Gen(seed uint64, idx int, tier string) interface{} {
 	} else if r.Chance(1, 3) {
 		sc.BudgetSlack = -2
 	}
+	if r.Chance(1, 5) {
+		// a feature probe (skipped when this version of the library rejects it): operations
+		// that would write into shared slices if they shared memory with their inputs
+		ps := ProgSpec{Kind: "probe", Raw: r.Pick([]string{"Xs[:1] + Ys", "Xs[:1] + Xs[1:]", "[3, 1, 2, 9][:A % 3] + Ys", "Ss[:1] + Ss", "O.Xs[:1] + Xs", "map(Xs[:2], {#}) + Xs"}), Optimize: true}
+		ps.Source = ps.Raw
+		sc.Progs[r.Intn(len(sc.Progs))] = ps
+	}
 	sc.Lenient = r.Chance(1, 4)
 	if sc.Lenient {
 		// a program that mentions names the environment does not have
@@ -328,6 +338,12 @@ func runSched(sc *SchedScenario, ctx *RunCtx) (*Finding, []Seg) {
 	envOpt := expr.Env(sample)
 	patchOpt := expr.Patch(yieldVisitor{})
 	lenientOpt := expr.AllowUndefinedVariables()
+	// two Operator options for the same operator; the first is built from a
+	// sub-slice whose backing array has room (and belongs to the caller)
+	opNames := opNameSlice()
+	opNamesSnap := fmt.Sprint(opNames)
+	opA := expr.Operator("**", opNames[:1]...)
+	opB := expr.Operator("**", "OpB")
 	optsOf := make([][]expr.Option, len(sc.Progs))
 	typedOpts := func(p ProgSpec) []expr.Option {
 		o := []expr.Option{envOpt, patchOpt}
@@ -339,6 +355,9 @@ func runSched(sc *SchedScenario, ctx *RunCtx) (*Finding, []Seg) {
 		}
 		if sc.Lenient {
 			o = append(o, lenientOpt)
+		}
+		if sc.ConstExpr {
+			o = append(o, opA, opB)
 		}
 		return o
 	}
@@ -634,6 +653,9 @@ func runSched(sc *SchedScenario, ctx *RunCtx) (*Finding, []Seg) {
 	}
 	if m := checkSnaps(); m != "" {
 		return &Finding{Class: "C08/shared-value-modified", Detail: "after all tasks finished: " + m + "\n" + detailHead()}, rec
+	}
+	if fmt.Sprint(opNames) != opNamesSnap {
+		return &Finding{Class: "C08/shared-value-modified", Detail: fmt.Sprintf("the caller's slice passed to expr.Operator(...) was modified: %s -> %v\n%s", opNamesSnap, opNames, detailHead())}, rec
 	}
 	if vm.MemoryBudget != budget {
 		return &Finding{Class: "C08/budget-variable-modified", Detail: fmt.Sprintf("vm.MemoryBudget changed from %d to %d while tasks ran", budget, vm.MemoryBudget)}, rec
